@@ -15,7 +15,7 @@ CONSTANTS
   DerivedP = {"props", "ppty", "bare", "empty"}
   DerivedC = {}
   DerivedM = {}
-  DerivedW = {}
+  DerivedW = {"arrmax"}
   MaxOverrides = 1
   MaxRoots = 2
 CONSTRAINT GBound
